@@ -252,6 +252,15 @@ def apply_real(tr, op, fresh):
     return None
 
 
+def kind_value(vk):
+    import numpy as np
+    return {'str2': 'ab', 'str7': 'walking', 'bytes': b'xyz', 'tuple': (1.0, 2.0), 'none': None, 'bool': True, 'npfloat': np.float64(1.5), 'npint': np.int64(4), 'int': 3,
+            'empty': '', 'dict': {'k': 1}}[vk]
+
+
+KIND_VALUES = ['str2', 'str7', 'bytes', 'tuple', 'none', 'bool', 'npfloat', 'npint', 'int', 'empty', 'dict']
+
+
 class C01(Check):
     id = 'C01'
     title = 'Feature table stays aligned with observations under any operation history'
@@ -263,7 +272,7 @@ class C01(Check):
                    'the bounded histories from the empty table check that every API-reachable table is of that form',
                    'feature values, coordinates, new values and the scalar operand are symbolic reals in [-8, 8]; timestamps concrete',
                    'operations are applied with existing operand names (documented precondition); creating an existing name is a documented no-op']
-    outside = ['names outside the alphabet {a, b, c} and the coordinate targets x, y, z', 'n > 3', 'features holding non-numeric objects', 'addAnalyticalFeature(function)', 'NaN inputs (see C02)']
+    outside = ['names outside the alphabet {a, b, c} and the coordinate targets x, y, z', 'n > 3', 'features holding non-numeric objects beyond the scalar-kind probes (text, bytes, tuple, None, bool, numpy scalars, dict written as one scalar)', 'addAnalyticalFeature(function)', 'NaN inputs (see C02)']
     budget = {'quick': 150, 'thorough': 1800}
 
     def bounds(self, tier):
@@ -289,6 +298,11 @@ class C01(Check):
         for n in ([300] if q else [129, 300, 1000]):
             for op in LONG_OPS:
                 js.append(dict(kind='step', n=n, table=['a', 'b'], op=op, long=True))
+        # value-kind probes: a scalar of another kind than float (text, tuple, None, bool, numpy scalar, int) is broadcast like any scalar
+        for n in ((2, 5) if q else (1, 2, 3, 5, 8)):
+            for api in ('create', 'set', 'update'):
+                for vk in sorted(KIND_VALUES):
+                    js.append(dict(kind='kinds', n=n, api=api, vk=vk))
         d = 2 if q else 3
         for first in range(len(self.HIST_OPS)):
             js.append(dict(kind='hist', n=2, first=first, depth=d))
@@ -360,6 +374,39 @@ class C01(Check):
             return abs(float(gv) - w) <= 1e-9 * max(1.0, abs(w))
         prove.sym = sym
 
+        if job['kind'] == 'kinds':
+            # table [a (symbolic list), b (symbolic list)]; one scalar write of another kind into a / c
+            feats = {nm: [g('%s%d' % (nm, i)) for i in range(n)] for nm in ('a', 'b')}
+            for nm in ('a', 'b'):
+                tr.createAnalyticalFeature(nm, list(feats[nm]))
+            v = kind_value(job['vk'])
+            tgt = 'c' if job['api'] == 'create' else 'b'
+            try:
+                if job['api'] == 'create':
+                    tr.createAnalyticalFeature(tgt, v)
+                elif job['api'] == 'set':
+                    tr[tgt] = v
+                else:
+                    tr.updateAnalyticalFeature(tgt, v)
+            except (core._Abort, core._Stop, core.Unsupported):
+                raise
+            except Exception as e:
+                return '%s of a scalar of kind %s raised %s' % (job['api'], job['vk'], type(e).__name__), {}
+            if sym:
+                ctx.reach()
+            bad = aflib.table_invariant(tr)
+            if bad:
+                return 'after writing a scalar of kind %s: %s' % (job['vk'], bad), {}
+            want_names = ['a', 'b'] + (['c'] if tgt == 'c' else [])
+            if sorted(tr.getListAnalyticalFeatures()) != want_names:
+                return 'after writing a scalar of kind %s the track lists %r' % (job['vk'], tr.getListAnalyticalFeatures()), {}
+            for i in range(n):
+                got = tr.getObsAnalyticalFeature(tgt, i)
+                if not (got is v or (type(got) is type(v) and got == v)):
+                    return 'a scalar of kind %s written to a feature reads back as %r at observation %d (a scalar is broadcast to every observation)' % (job['vk'], got, i), {}
+                if tr.getObsAnalyticalFeature('a', i) is not feats['a'][i] and tr.getObsAnalyticalFeature('a', i) != feats['a'][i]:
+                    return 'writing a scalar of kind %s changed another feature' % job['vk'], {}
+            return None, {}
         if job['kind'] == 'step':
             table = job['table']
             feats = {}
